@@ -38,7 +38,8 @@ def main():
         if rc != 0:
             print("patch does not apply:", out[:500])
             return 1
-        rc, out = sh("go build ./... && go test -vet=off -count=1 ./... 2>&1 | grep -v 'no test files' | grep -v '^ok' | head -20", D)
+        suite = "go build ./..." if "--nosuite" in sys.argv else "go build ./... && go test -vet=off -count=1 ./... 2>&1 | grep -v 'no test files' | grep -v '^ok' | head -20"
+        rc, out = sh(suite, D)
         res["suite_green_with_patch"] = (out.strip() == "")
         if out.strip():
             print("suite not green with patch:\n" + out[:800])
@@ -55,7 +56,8 @@ def main():
                     print("   ", l[:700])
         out_dir = os.path.join(VERIF, "benign", "%s-%s" % (pid, k))
         os.makedirs(out_dir, exist_ok=True)
-        shutil.copy(os.path.join(src, "patch.diff"), out_dir)
+        if os.path.abspath(src) != os.path.abspath(out_dir):
+            shutil.copy(os.path.join(src, "patch.diff"), out_dir)
         meta = {}
         mp = os.path.join(src, "meta.json")
         if os.path.exists(mp):
